@@ -11,6 +11,7 @@ import (
 	"io"
 	"os"
 	"path/filepath"
+	"runtime/debug"
 	"sort"
 	"strconv"
 	"sync"
@@ -48,9 +49,17 @@ func (d *Doc) UnmarshalJSON(b []byte) error {
 
 // ProjectSegment reads the identity of every document of a segment from its
 // stored fields.
-func ProjectSegment(seg segment.Segment) []Doc {
+func ProjectSegment(seg segment.Segment) (rv []Doc) {
+	// reading a segment whose file was unmapped too early must become a result
+	// (a document that cannot be read), not the end of the driver
+	defer debug.SetPanicOnFault(debug.SetPanicOnFault(true))
+	defer func() {
+		if p := recover(); p != nil {
+			rv = append(rv, Doc{ID: "unreadable", UID: -1, K: -1})
+		}
+	}()
 	n := seg.Count()
-	rv := make([]Doc, 0, n)
+	rv = make([]Doc, 0, n)
 	for i := uint64(0); i < n; i++ {
 		var d Doc
 		_ = seg.VisitStoredFields(i, func(field string, value []byte) bool {
